@@ -181,7 +181,7 @@ package boltz
 // ---- link collections ----
 //@ func (*linkCollectionImpl).IterateLinks
 //@   props C09 C14
-//@   nosafety
+//@   requires collection.field != nil
 //@   callpre[an-entity-without-a-links-bucket-has-an-empty-link-set-it-is-not-a-crash] HasError@1: fieldBucket != nil
 //@   callpre[only-a-bucket-that-exists-is-iterated] IterateStringList@1: recv != nil
 //@   waive pre#IterateStringList a bucket reached through GetPath without an error wraps a bbolt bucket (cursor preconditions are C14's concern)
